@@ -179,4 +179,28 @@ def rehandleMap (m : EnvMap) (path used : Nat) : Nat :=
   | some s => (settle (maybeResize s.gate used).1).mapSize
   | none => 0
 
+/-! ### how the registry keys an environment
+
+`ENV_MAP` is keyed by the STRING `Path::new(root_path).join("multi_lmdb").to_str()`; heed keeps its
+own table of opened environments keyed by the CANONICAL path and refuses to open one twice inside a
+process (`Error::EnvAlreadyOpened`).  `key` = the string, `dir` = the directory it resolves to. -/
+
+inductive OpenOutcome
+  /-- same key: the handle joins the registered environment (`storeNewEnv`, `stores_count + 1`) -/
+  | shared
+  /-- another spelling of a directory whose environment is open: `env_options.open` fails, `Store::new`
+      returns the error, the registry is untouched -/
+  | refused
+  /-- a directory not open in this process: a fresh environment with a fresh gate -/
+  | separate
+deriving Repr, DecidableEq
+
+/-- the registry with the directory each key resolves to -/
+abbrev EnvMapD := List (Nat × Nat × EnvState)
+
+def storeNewOutcome (m : EnvMapD) (key dir : Nat) : OpenOutcome :=
+  if m.any (fun x => x.1 == key) then .shared
+  else if m.any (fun x => x.2.1 == dir) then .refused
+  else .separate
+
 end GV.Kv
